@@ -206,11 +206,17 @@ class _Spy:
 
     def __init__(self, pt):
         self.log = []
+        self.calls = 0
+        self.abort_at = None  # when set: the abort_at-th dset.forward call raises _Abort (an interrupted run)
         torch = q().torch
         fwd = pt.dset.forward
         sched = pt.step_schedulers
 
         def forward(batch_indices, obj_padding_px):
+            self.calls += 1
+            if self.abort_at is not None and self.calls >= self.abort_at:
+                self.abort_at = None
+                raise _Abort()
             tag = "t" if torch.is_grad_enabled() else "v"
             self.log.append((tag, np.asarray(batch_indices).astype(np.int64).tolist()))
             return fwd(batch_indices, obj_padding_px)
@@ -224,7 +230,12 @@ class _Spy:
 
     def take(self):
         out, self.log = self.log, []
+        self.calls = 0
         return out
+
+
+class _Abort(Exception):
+    """Raised by the harness inside a mini-batch to model an interrupted reconstruct() call."""
 
 
 def _epochs(case, log, J, num_iters, bs):
@@ -394,34 +405,53 @@ def _check_invariance(ctx, case):
 # ================================================================================================
 # part 2: seeded determinism
 # ================================================================================================
+SCHEDULERS = {
+    "none": None,
+    "exp_factor": {"type": "exp", "factor": 0.1},  # gamma derived from the run length
+    "exp_gamma": {"type": "exp", "gamma": 0.7},
+    "linear": {"type": "linear"},  # total_iters derived from the run length; rescales lr on construction
+    "cyclic": {"type": "cyclic", "step_size_up": 2},  # base/max lr derived from the optimiser lr
+    "plateau": {"type": "plateau", "patience": 0, "cooldown": 0},
+}
+SCHEDULERS["exp"] = SCHEDULERS["exp_factor"]  # older replay files
+
+KEY_SCHED_COMPOUND = "c09-reset-scheduler-lr-compounding"
+
+
 def _check_determinism(ctx, case):
-    q()
+    Q = q()
     J = int(case["gpts"][0]) * int(case["gpts"][1])
     hi = bool(case["hi"])
     b = case["b"]
     bs = J if b is None else int(b)
     iters = int(case["iters"])
     lr = float(case["lr"])
-    opt = {k: {"type": case["opt"], "lr": lr} for k in case["learn"]}
-    sched = None
-    if case["sched"] == "exp":
-        sched = {k: {"type": "exp", "factor": 0.1} for k in case["learn"]}
-    kw = dict(num_iters=iters, batch_size=b, loss_type=case["loss_type"])
-    if sched:
-        kw["scheduler_params"] = sched
+    learn = list(case["learn"])
+    opt = {k: {"type": case["opt"], "lr": lr} for k in learn}
+    sp = SCHEDULERS[case["sched"]]
+    sched = {k: dict(sp) for k in learn} if sp else None
+    repass = case.get("repass") or ("both" if case.get("repass_opt", True) else "sched")
+    prelude = case.get("prelude", "none")
+    if b is None and case.get("prelude_b") is not None:
+        raise core.HarnessError("batch_size=None keeps the prelude's batch size: not the same run")
+    base = dict(num_iters=iters, batch_size=b, loss_type=case["loss_type"])
+
+    def full_kw():
+        k2 = dict(base)
+        k2["optimizer_params"] = {k: dict(v) for k, v in opt.items()}
+        if sched:
+            k2["scheduler_params"] = {k: dict(v) for k, v in sched.items()}
+        return k2
 
     with B.Precision(hi):
         with ctx.sut(case, "building two identically seeded problems"):
             A = B.build(case)
             C = B.build(case)
-        spyA, spyC = _Spy(A), _Spy(C)
+        spyA = _Spy(A)
 
-        def run(pt, spy, reset, pass_opt, what):
-            k2 = dict(kw)
-            if pass_opt:
-                k2["optimizer_params"] = {k: dict(v) for k, v in opt.items()}
+        def run(pt, spy, what, **k2):
             with ctx.sut(case, what):
-                pt.reconstruct(reset=reset, **k2)
+                pt.reconstruct(**k2)
                 losses = ref.hexes(pt.iter_losses)
                 vlosses = ref.hexes(pt.val_iter_losses)
             return losses, vlosses, spy.take()
@@ -430,8 +460,9 @@ def _check_determinism(ctx, case):
         # constructors seeded them)
         classes = _geom_classes("det", case) + ["det:opt_" + case["opt"], "det:rng_" + case.get("rng_form", "int")]
         classes.append("det:seed_ge_2^32" if int(case["seed"]) >= 2**32 else "det:seed_lt_2^32")
+        classes += ["det:sched_" + case["sched"], "det:rerun_repasses_" + repass, "det:prelude_" + prelude]
         try:
-            la, va, logA = run(A, spyA, False, True, "reconstruct (fresh instance, no reset)")
+            la, va, logA = run(A, spyA, "reconstruct (fresh instance, no reset)", reset=False, **full_kw())
             epochs = _epochs(case, logA, J, iters, bs)
         except core.Violation:
             ctx.record(case, True, classes)
@@ -449,27 +480,74 @@ def _check_determinism(ctx, case):
         if len(la) != iters:
             _fail(case, "reconstruct(num_iters=%d) recorded %d iteration losses" % (iters, len(la)))
 
-        # history 2: a second fresh instance built from the same seeds; its first call is made with or
-        # without reset=True (drawn) -- either way it is "a run started from the same seed"
-        first_reset = bool(case["first_reset"])
-        how = "first call with reset=True" if first_reset else "no reset"
-        lc, vc, logC = run(C, spyC, first_reset, True, "reconstruct (second instance, same seeds, %s)" % how)
+        # history 2: a second instance built from the same seeds, optionally with a PRELUDE -- something
+        # that happened to the object before the run that is compared -- followed by the same run with
+        # reset=True ("the same run after a reset"); without a prelude the first call is made with or
+        # without reset=True (drawn): either way "a run started from the same seed"
+        reset_c = True
+        how = prelude
+        if prelude == "none":
+            reset_c = bool(case["first_reset"])
+            how = "fresh, first call with reset=True" if reset_c else "fresh, no reset"
+            spyC = _Spy(C)
+        elif prelude in ("clone", "from_ptychography"):
+            # copying a never-run object (done before the observers are attached: the copy goes through
+            # deepcopy or save/load)
+            with ctx.sut(case, "%s of a never-run instance" % prelude):
+                if prelude == "clone":
+                    C.clone()
+                else:
+                    Q.Ptychography.from_ptychography(C)
+            spyC = _Spy(C)
+        else:
+            spyC = _Spy(C)
+            if prelude == "zero_iter":
+                # configuration-only call (num_iters=0 is the default of reconstruct)
+                k0 = dict(num_iters=0, optimizer_params={k: dict(v) for k, v in opt.items()}, loss_type=case["loss_type"])
+                k0["batch_size"] = case.get("prelude_b")
+                run(C, spyC, "reconstruct(num_iters=0) configuration-only call", **k0)
+            elif prelude == "other_run":
+                # a completed run of another length / batch size
+                k0 = full_kw()
+                k0.update(num_iters=int(case.get("prelude_iters", 1)), batch_size=case.get("prelude_b"))
+                run(C, spyC, "a previous completed run", **k0)
+            elif prelude == "abort":
+                # a run interrupted inside its abort_at-th mini-batch (1 = the very first one)
+                spyC.abort_at = int(case["abort_at"])
+                with ctx.sut(case, "interrupted reconstruct"):
+                    try:
+                        C.reconstruct(reset=False, **full_kw())
+                        ctx.count("det:abort_not_reached")
+                    except _Abort:
+                        ctx.count("det:aborted_before_first_recorded_epoch" if len(C.iter_losses) == 0 else "det:aborted_after_recorded_epochs")
+                spyC.abort_at = None
+                spyC.take()
+            else:
+                raise core.HarnessError("unknown prelude %r" % prelude)
+        lc, vc, logC = run(C, spyC, "reconstruct (second instance, same seeds, %s)" % how, reset=reset_c, **full_kw())
+        what = "a second instance built from the same seeds (%s%s)" % (how, "" if prelude == "none" else ", then the same run with reset=True")
         if logA != logC:
-            _fail(case, "two instances built from the same seeds (second one: %s) visit the patterns in a different order" % how)
+            _fail(case, "%s visits the patterns in a different order than the fresh seeded run" % what)
         if la != lc:
-            _fail(case, "two instances built from the same seeds (second one: %s) give different iter_losses: %s vs %s" % (how, _show(la), _show(lc)))
+            _fail(case, "%s gives different iter_losses than the fresh seeded run: %s vs %s" % (what, _show(lc), _show(la)))
         if va != vc:
-            _fail(case, "two instances built from the same seeds (second one: %s) give different val_iter_losses: %s vs %s" % (how, _show(va), _show(vc)))
+            _fail(case, "%s gives different val_iter_losses than the fresh seeded run: %s vs %s" % (what, _show(vc), _show(va)))
 
-        # history 3: the first instance again after reconstruct(reset=True): fresh-run-without-reset vs
-        # run-after-reset
-        la2, va2, logA2 = run(A, spyA, True, bool(case["repass_opt"]), "reconstruct(reset=True) re-run")
+        # history 3: the first instance again after reconstruct(reset=True), re-passing both / only the
+        # optimiser / only the scheduler / neither parameter dict (both are sticky on the models)
+        k3 = dict(base)
+        if repass in ("both", "opt"):
+            k3["optimizer_params"] = {k: dict(v) for k, v in opt.items()}
+        if repass in ("both", "sched") and sched:
+            k3["scheduler_params"] = {k: dict(v) for k, v in sched.items()}
+        la2, va2, logA2 = run(A, spyA, "reconstruct(reset=True) re-run", reset=True, **k3)
+        tail = " (scheduler %s, re-run re-passes %s)" % (case["sched"], repass)
         if logA2 != logA:
-            _fail(case, "after reconstruct(reset=True) the patterns are visited in a different order than in the fresh run made without reset")
+            _fail(case, "after reconstruct(reset=True) the patterns are visited in a different order than in the fresh run made without reset" + tail)
         if la2 != la:
-            _fail(case, "reconstruct(reset=True) does not reproduce the iter_losses of the fresh run made without reset: %s vs %s" % (_show(la), _show(la2)))
+            _fail(case, "reconstruct(reset=True) does not reproduce the iter_losses of the fresh run made without reset: %s vs %s%s" % (_show(la), _show(la2), tail))
         if va2 != va:
-            _fail(case, "reconstruct(reset=True) does not reproduce the val_iter_losses of the fresh run made without reset: %s vs %s" % (_show(va), _show(va2)))
+            _fail(case, "reconstruct(reset=True) does not reproduce the val_iter_losses of the fresh run made without reset: %s vs %s%s" % (_show(va), _show(va2), tail))
 
 
 def _show(hx):
@@ -623,7 +701,7 @@ def invariance_cases(draw, loss_type=None, soft=None):
 
 
 @st.composite
-def determinism_cases(draw):
+def determinism_cases(draw, avoid_sched_compound=False, preludes=None):
     c = draw(_problem(seeds=BIG_SEEDS))
     c["rng_form"] = draw(st.sampled_from(["int", "int", "gen"]))
     if draw(st.booleans()) and c["val_ratio"] == 0.0:
@@ -633,12 +711,26 @@ def determinism_cases(draw):
     c["learn"] = draw(st.sampled_from(LEARN))
     c["opt"] = draw(st.sampled_from(["adam", "adamw", "sgd"]))
     c["lr"] = draw(st.sampled_from([1e-2, 1e-3])) if c["opt"] != "sgd" else draw(st.sampled_from([1e-3, 1e-4]))
-    c["sched"] = draw(st.sampled_from(["none", "none", "exp"]))
+    c["sched"] = draw(st.sampled_from(["none", "exp_factor", "exp_factor", "exp_gamma", "linear", "cyclic", "plateau"]))
     # mostly several batches per epoch and a short last batch
-    c["b"] = draw(st.one_of(st.integers(1, max(1, J // 2)), st.integers(1, J + 2), st.none()))
+    bsz = st.one_of(st.integers(1, max(1, J // 2)), st.integers(1, J + 2), st.none())
+    c["b"] = draw(bsz)
     c["iters"] = draw(st.integers(2, 3))
+    # calling convention of the re-run after reset: which of the (sticky) parameter dicts are passed again
+    c["repass"] = draw(st.sampled_from(["both", "opt", "sched", "neither", "neither"]))
+    if avoid_sched_compound and c["sched"] in ("linear", "cyclic") and c["repass"] in ("sched", "neither"):
+        c["repass"] = "both"
+    # what happened to the second instance before the compared run
+    c["prelude"] = draw(st.sampled_from(preludes or ["none", "none", "zero_iter", "zero_iter", "abort", "abort", "other_run", "clone", "from_ptychography"]))
     c["first_reset"] = draw(st.booleans())
-    c["repass_opt"] = draw(st.booleans())
+    if c["prelude"] in ("zero_iter", "other_run"):
+        # batch_size=None means "keep the current batch size": if the compared run passes None the
+        # prelude must not have changed it
+        c["prelude_b"] = draw(st.one_of(st.integers(1, J + 2), st.none())) if c["b"] is not None else None
+    if c["prelude"] == "other_run":
+        c["prelude_iters"] = draw(st.integers(1, 2))
+    if c["prelude"] == "abort":
+        c["abort_at"] = draw(st.sampled_from([1, 1, 1, 2, 3, 5, 8]))
     return c
 
 
@@ -667,6 +759,14 @@ def search(ctx):
     # part 2 (the invariance budget is stratified over the loss types: each has its own scaling branch)
     for lt in LOSS_TYPES:
         run("invariance:" + lt, invariance_cases(lt), 7, 30)
-    run("determinism", determinism_cases(), 40, 200)
+    avoid = ctx.is_open(KEY_SCHED_COMPOUND)
+    if avoid:
+        ctx.exclude(KEY_SCHED_COMPOUND)
+    # the determinism budget is stratified over the history before the compared run
+    run("determinism", determinism_cases(avoid, ["none"]), 14, 70)
+    run("determinism:zero_iter", determinism_cases(avoid, ["zero_iter"]), 7, 35)
+    run("determinism:abort", determinism_cases(avoid, ["abort"]), 8, 40)
+    run("determinism:other_run", determinism_cases(avoid, ["other_run"]), 4, 20)
+    run("determinism:copy", determinism_cases(avoid, ["clone", "from_ptychography"]), 7, 35)
     for k, v in STATS.items():
         ctx.extra["max_err_over_tol: " + k] = float("%.3g" % v)
